@@ -18,5 +18,6 @@ fi
 (cd "$ROOT/verif" && VERIF_REPO="$ROOT/repo" timeout 3000 ./check "$PID" "$TIER" > "$ROOT/check.out" 2>&1; echo "check_rc=$?" >> "$ROOT/check.out")
 grep -E "^(VIOLATION|KNOWN-FINDING|\[C|check_rc)" "$ROOT/check.out" | cut -c1-400
 if ls "$ROOT/verif/replays/"*.json >/dev/null 2>&1; then mkdir -p "$DIR/replay"; cp "$ROOT/verif/replays/"*.json "$DIR/replay/" 2>/dev/null; fi
+if [ -n "${KEEP_OUT:-}" ]; then cp "$ROOT/check.out" "$KEEP_OUT"; fi
 git -C /repo worktree remove --force "$ROOT/repo"
 rm -rf "$ROOT"
